@@ -323,3 +323,125 @@ def run(u, r, ob, trace):
     if u['id'].startswith('conv.') and not u['id'].startswith('conv.tracked'):
         return run_convert(u, r, ob, trace)
     return _prev_run(u, r, ob, trace)
+
+
+# ---------------------------------------------------------------- recipe `compare` (units vec.<list of integers/floats>.F<f>.{equal,not_equal,less,op_*,...})
+def _cmp_prog(L, group):
+    """native differential test of the vector-level comparison operators against an oracle written over the logical content only:
+    pairs of vectors (0..2 elements, fixed sizes 0..2, values 0..2; equal pairs, prefixes and unrelated pairs) built in blocks that
+    were filled with different junk bytes first"""
+    P = L.params
+    types = ', '.join(p.cxx() for p in P)
+    nf = L.nfixed
+    if nf and L.nvar: ctor = 'V v(3, 64, {%s});' % ', '.join('fs[%d]' % k for k in range(nf))
+    elif nf: ctor = 'V v(3, {%s});' % ', '.join('fs[%d]' % k for k in range(nf))
+    elif L.nvar: ctor = 'V v(3, 64);'
+    else: ctor = 'V v(3);'
+    args = []
+    for i, p in enumerate(P):
+        if p.kind in 'pc': args.append('(%s)e[%d][0]' % (p.value_type(), i))
+        else: args.append('tov<%s>(e[%d])' % (p.value_type(), i))
+    gen = []   # random element: field i gets its values
+    fk = 0
+    for i, p in enumerate(P):
+        if p.kind == 'p': gen.append('e[%d] = {(long long)rnd(3)};' % i)
+        elif p.kind == 'c' and i + 1 < len(P) and P[i + 1].kind == 'v': gen.append('e[%d] = {(long long)rnd(3)};' % i)
+        elif p.kind == 'c': gen.append('e[%d] = {(long long)rnd(3)};' % i)
+        elif p.kind == 'f': gen.append('e[%d].clear(); for (std::size_t j = 0; j < fs[%d]; ++j) e[%d].push_back(rnd(3));' % (i, fk, i)); fk += 1
+        else: gen.append('e[%d].clear(); for (long long j = 0; j < e[%d][0]; ++j) e[%d].push_back(rnd(3));' % (i, i - 1, i))
+    bytes_only = all(p.kind in 'pc' and p.elem == 'u' and p.size == 1 for p in P)
+    checks_eq = '''
+        bool eq = oracle_eq(qa, qb);
+        if ((a == b) != eq) { report("operator==", qa, fa, qb, fb, a == b, eq); }
+        if ((a != b) != !eq) { report("operator!=", qa, fa, qb, fb, a != b, !eq); }
+        if (!(a == a)) { report("== reflexive", qa, fa, qa, fa, false, true); }
+        if ((a == b) != (b == a)) { report("== symmetric", qa, fa, qb, fb, a == b, b == a); }'''
+    checks_lt = '''
+        if (a < a) { report("< irreflexive", qa, fa, qa, fa, true, false); }
+        if ((a < b) && (b < a)) { report("< asymmetric", qa, fa, qb, fb, true, false); }
+        if ((a < b) && (a == b)) { report("a < b implies a != b", qa, fa, qb, fb, true, false); }
+        if ((a > b) != (b < a)) { report("a > b equals b < a", qa, fa, qb, fb, a > b, b < a); }
+        if ((a <= b) != !(b < a)) { report("a <= b equals !(b < a)", qa, fa, qb, fb, a <= b, !(b < a)); }
+        if ((a >= b) != !(a < b)) { report("a >= b equals !(a < b)", qa, fa, qb, fb, a >= b, !(a < b)); }''' + ('''
+        if ((a < b) != oracle_lt(qa, qb)) { report("operator< (lexicographical)", qa, fa, qb, fb, a < b, oracle_lt(qa, qb)); }''' if bytes_only else '')
+    return r'''// generated by tools/replay.py (recipe compare) for "%(spec)s"
+#include <cntgs/contiguous.hpp>
+#include <array>
+#include <cstdint>
+#include <cstdio>
+#include <cstring>
+#include <vector>
+using Elem = std::vector<std::vector<long long>>;   // per field: its values (a plain field has one)
+using Seq = std::vector<Elem>;
+using FS = std::array<std::size_t, %(nf1)d>;
+using V = cntgs::ContiguousVector<%(types)s>;
+static unsigned long long st = 88172645463325252ull;
+static unsigned rnd(unsigned n) { st ^= st << 13; st ^= st >> 7; st ^= st << 17; return (unsigned)((st >> 11) %% n); }
+template <class T> static std::vector<T> tov(const std::vector<long long>& x) { std::vector<T> r; for (auto v : x) r.push_back((T)v); return r; }
+static int bad = 0;
+static void show(const Seq& q, const FS& fs) { std::printf("{"); for (auto& e : q) { std::printf("("); for (auto& f : e) { std::printf("["); for (auto v : f) std::printf("%%lld ", v); std::printf("]"); } std::printf(")"); } std::printf("} fixed sizes"); for (auto f : fs) std::printf(" %%zu", f); }
+static void report(const char* what, const Seq& a, const FS& fa, const Seq& b, const FS& fb, bool got, bool want)
+{ if (bad++ < 4) { std::printf("MISMATCH %%s: library %%d, field-wise oracle %%d; a = ", what, got, want); show(a, fa); std::printf("; b = "); show(b, fb); std::printf("\n"); } }
+static bool oracle_eq(const Seq& a, const Seq& b) { return a == b; }   // same number of elements, same field sizes, same values
+static bool oracle_lt(const Seq& a, const Seq& b) { return a < b; }    // lexicographical over elements, fields, values
+static Elem random_elem(const FS& fs) { Elem e(%(n)d); (void)fs; %(gen)s return e; }
+static V make(const Seq& q, const FS& fs, int junk)
+{
+    (void)fs; %(ctor)s
+    std::memset(v.data(), junk, v.memory_consumption());
+    for (auto& e : q) v.emplace_back(%(args)s);
+    return v;
+}
+int main()
+{
+    for (int it = 0; it < 6000 && bad < 4; ++it)
+    {
+        FS fa{}, fb{};
+        for (auto& f : fa) f = rnd(3);
+        fb = fa; if (rnd(4) == 0) for (auto& f : fb) f = rnd(3);
+        Seq qa, qb;
+        unsigned na = rnd(3), nb = rnd(3);
+        for (unsigned i = 0; i < na; ++i) qa.push_back(random_elem(fa));
+        unsigned mode = rnd(3);
+        if (mode == 0 && fa == fb) qb = qa;                                       // equal content
+        else if (mode == 1 && fa == fb) { qb = qa; if (!qb.empty()) qb.pop_back(); }  // strict prefix
+        else for (unsigned i = 0; i < nb; ++i) qb.push_back(random_elem(fb));
+        if (rnd(2)) { std::swap(qa, qb); std::swap(fa, fb); }
+        V a = make(qa, fa, 0xAA), b = make(qb, fb, 0x55);
+%(checks)s
+    }
+    return bad ? 1 : 0;
+}
+''' % dict(spec=L.spec, nf1=nf, types=types, n=len(P), gen=' '.join(gen), ctor=ctor, args=', '.join(args), checks=checks_eq if group == 'eq' else checks_lt)
+
+
+def run_vcompare(u, r, ob, trace):
+    m = re.match(r'vector: (.*), allocator traits F=(\d+)', u.get('config', ''))
+    if not m:
+        return None
+    L = layout.Layout(m.group(1))
+    op = '.'.join(u['id'].split('.')[3:-1])
+    group = 'eq' if op in ('equal', 'not_equal', 'equal.reflexive', 'equal.symmetric') else 'lt'
+    src = _cmp_prog(L, group)
+    with tempfile.TemporaryDirectory(dir=os.path.join(vf.BUILD)) as td:
+        open(os.path.join(td, 'replay.cpp'), 'w').write(src)
+        c = subprocess.run(['g++', '-std=c++17', '-DNDEBUG', '-O1', '-I' + os.path.join(vf.REPO, 'src'), 'replay.cpp', '-o', 'replay'], cwd=td, capture_output=True, text=True)
+        if c.returncode != 0:
+            return {'reproduced': False, 'recipe': 'compare', 'note': 'replay program does not compile: ' + c.stderr[-500:]}
+        try:
+            p = subprocess.run(['./replay'], cwd=td, capture_output=True, text=True, timeout=120)
+        except subprocess.TimeoutExpired:
+            return {'reproduced': False, 'recipe': 'compare', 'note': 'replay program did not terminate'}
+    mism = [l for l in p.stdout.split('\n') if l.startswith('MISMATCH')]
+    if p.returncode not in (0, 1):
+        mism.append('replay program crashed (exit %s)' % p.returncode)
+    return {'reproduced': bool(mism), 'recipe': 'compare', 'inputs': {'parameter_list': L.spec, 'operator_group': group, 'search': '6000 pseudo-random pairs of vectors with <= 2 elements, fixed sizes and values in 0..2, blocks pre-filled with 0xAA resp. 0x55'}, 'mismatches': mism[:4]}
+
+
+_prev_run2 = run
+
+
+def run(u, r, ob, trace):
+    if u['id'].startswith('vec.') and re.search(r'\.(equal|not_equal|less|op_gt|op_le|op_ge)(\.|$)', u['id']):
+        return run_vcompare(u, r, ob, trace)
+    return _prev_run2(u, r, ob, trace)
